@@ -2,23 +2,28 @@ import RrModel.Exec
 import RrProofs.Lemmas.Exec
 /-
   C20 — the client-invisibility clause, on the executor model (routeRequest / performRequest):
-  a copy rule whose request can be built, and whose destination is not also a destination of the
-  proxied request, changes neither the routing result nor the proxied contacts — whatever the copy
-  destination does.  Proof: a simulation (`Model.ExecSim.Sim hc`, RrProofs/Lemmas/Exec.lean) between
-  the run with the copy and the run without it; the two runs agree up to the copy host's
+  a copy rule whose destination is not also a destination of the proxied request changes neither
+  the routing result nor the proxied contacts — whatever the copy destination does, and whether or
+  not the copy request can be built (a copy request that cannot be built is logged and dropped:
+  repaired finding C20-a).  Proof: a simulation (`Model.ExecSim.Sim hc`, RrProofs/Lemmas/Exec.lean)
+  between the run with the copy and the run without it; the two runs agree up to the copy host's
   connection-failure counter and the copy host's contacts.
 -/
 namespace Props.C20Exec
 open Go Model Model.ExecSim
 
-/-- hypotheses under which the copy rule must be invisible: its request can be built and parsed
-    (class of finding C20-a excluded), and its destination host is not also a destination of the
-    proxied request (main rule or a retry_rule fallback) — otherwise the scripted origin's per-host
-    connection-failure counter is shared, which is an artefact of the fault model, not of rrrouter -/
+/-- hypotheses under which the copy rule must be invisible: its destination host `hc` (its target
+    parses) is not also a destination of the proxied request (main rule or a retry_rule fallback) —
+    otherwise the scripted origin's per-host connection-failure counter is shared, which is an
+    artefact of the fault model, not of rrrouter.  Nothing is assumed about whether the copy
+    request can be BUILT (no `builds` field any more: a 407 while building it is only logged);
+    `noPanic` excludes only the Go run-time panic `secrets[0]` on an empty, non-nil secret list,
+    which is no error value and which no accepted configuration produces (config.RoutingSecrets
+    is nil or non-empty). -/
 structure Separate (cfg : ExecCfg) (q : Query) (m : Bytes) (chain : List Rule)
     (main : Option (Rule × Bytes × Option Nat)) (copy : Rule × Bytes) (hc : Bytes) : Prop where
   parses : destHost copy.2 = some hc
-  builds : cfg.build copy.1.internal = none
+  noPanic : cfg.build copy.1.internal ≠ some .panicNoSecrets
   notMain : ∀ x, main = some x → destHost x.2.1 ≠ some hc
   notFallback : ∀ rr ∈ chain, ∀ x, fallbackMatch q m rr = some x → destHost x.2.1 ≠ some hc
 
@@ -40,13 +45,6 @@ def CopyInvisibleContacts : Prop :=
     Separate cfg q m chain main copy hc →
     ((routeRequest cfg q m chain main (some copy) { remaining := b }).1.contacts.filter (·.host ≠ hc))
       = (routeRequest cfg q m chain main none { remaining := b }).1.contacts
-
-/-- the excluded class is real (finding C20-a): when only the COPY request cannot be built the
-    client gets that error although the proxied request alone would have been fine -/
-def CopyBuildErrorVisible : Prop :=
-  ∃ (cfg : ExecCfg) (q : Query) (m b : Bytes) (main : Option (Rule × Bytes × Option Nat)) (copy : Rule × Bytes),
-    (routeRequest cfg q m [] main (some copy) { remaining := b }).2 matches .userError 407 _ ∧
-    (routeRequest cfg q m [] main none { remaining := b }).2 matches .response _ _
 
 /-! ### one pass -/
 
@@ -83,6 +81,64 @@ theorem copyStage_left (cfg : ExecCfg) (m : Bytes) (hasRetry : Bool) (hc : Bytes
   unfold copyStage
   exact performRequest_left cfg.script cfg.retries cfg.excluded hc m (!hasRetry) s s' src hs
 
+/-- the two performs without a copy request on `Sim`-related states: deterministic up to `hc`'s
+    counter and contacts, provided `hc` is not the destination -/
+theorem performBoth_sim (cfg : ExecCfg) (m : Bytes) (hasRetry : Bool) (hc : Bytes)
+    (main : Option (Rule × Bytes × Option Nat))
+    (hnm : ∀ x, main = some x → destHost x.2.1 ≠ some hc)
+    (s s' : ExecState) (hs : Sim hc s s') (hr : s.remaining = s'.remaining) :
+    (performBoth cfg m hasRetry main none s).2 = (performBoth cfg m hasRetry main none s').2 ∧
+    Sim hc (performBoth cfg m hasRetry main none s).1 (performBoth cfg m hasRetry main none s').1 := by
+  have hmh : (main.map fun x => destHost x.2.1) ≠ some (some hc) := by
+    cases main with
+    | none => simp
+    | some x => simpa using hnm x rfl
+  unfold performBoth
+  simp only [Option.map_none, Option.isSome_none, Bool.and_false, Bool.false_or, copyStage]
+  split
+  · exact mainStage_sim cfg m hasRetry hc _ hmh _ _ _ _ _ hs (by simp [delivered, hr])
+  · exact mainStage_sim cfg m hasRetry hc _ hmh _ _ _ _ _ hs (by simp [delivered, hr])
+
+/-- the two performs with a copy request to `hc` against the two performs without it: same stage
+    result, and the states still agree up to the copy host -/
+theorem performBoth_copy (cfg : ExecCfg) (m : Bytes) (hasRetry : Bool) (hc : Bytes)
+    (main : Option (Rule × Bytes × Option Nat)) (copy : Rule × Bytes)
+    (hparse : destHost copy.2 = some hc)
+    (hnm : ∀ x, main = some x → destHost x.2.1 ≠ some hc)
+    (s s' : ExecState) (hs : Sim hc s s') (hr : s.remaining = s'.remaining) :
+    (performBoth cfg m hasRetry main (some copy) s).2 = (performBoth cfg m hasRetry main none s').2 ∧
+    Sim hc (performBoth cfg m hasRetry main (some copy) s).1 (performBoth cfg m hasRetry main none s').1 := by
+  have hmh : (main.map fun x => destHost x.2.1) ≠ some (some hc) := by
+    cases main with
+    | none => simp
+    | some x => simpa using hnm x rfl
+  unfold performBoth
+  simp only [Option.map_some, Option.map_none, hparse,
+    Option.isSome_some, Option.isSome_none, Bool.and_true, Bool.and_false, Bool.false_or]
+  simp only [copyStage]
+  by_cases hbuf' : (decide (m ≠ cfg.excluded) || hasRetry) = true
+  · -- the run without the copy buffers too
+    rw [if_pos hbuf']
+    have hbuf : (main.isSome || decide (m ≠ cfg.excluded) || hasRetry) = true := by
+      rw [Bool.or_assoc, hbuf', Bool.or_true]
+    rw [if_pos hbuf]
+    exact mainStage_sim cfg m hasRetry hc _ hmh _ _ _ _ _
+      (performRequest_left cfg.script cfg.retries cfg.excluded hc m (!hasRetry) _ _ _ hs)
+      (by simp [delivered, hr])
+  · -- excluded method, no retry rule: without the copy the client body is read directly
+    rw [if_neg hbuf']
+    cases main with
+    | none =>
+      -- no proxied request at all: 404 in both runs, the copy reads the client body
+      rw [if_neg (by simpa using hbuf')]
+      simp only [Option.map_none, mainStage]
+      exact ⟨by trivial, performRequest_left cfg.script cfg.retries cfg.excluded hc m (!hasRetry) _ _ _ hs⟩
+    | some x =>
+      rw [if_pos (by simp)]
+      exact mainStage_sim cfg m hasRetry hc _ hmh _ _ _ _ _
+        (performRequest_left cfg.script cfg.retries cfg.excluded hc m (!hasRetry) _ _ _ hs)
+        (by simp [delivered, hr])
+
 /-- one pass without a copy rule on `Sim`-related states (the fallback passes of both runs):
     deterministic up to `hc`'s counter and contacts, provided `hc` is not the destination -/
 theorem routeOnce_sim (cfg : ExecCfg) (m : Bytes) (hasRetry : Bool) (hc : Bytes)
@@ -91,65 +147,37 @@ theorem routeOnce_sim (cfg : ExecCfg) (m : Bytes) (hasRetry : Bool) (hc : Bytes)
     (s s' : ExecState) (hs : Sim hc s s') (hr : s.remaining = s'.remaining) :
     (routeOnce cfg m hasRetry main none s).2 = (routeOnce cfg m hasRetry main none s').2 ∧
     Sim hc (routeOnce cfg m hasRetry main none s).1 (routeOnce cfg m hasRetry main none s').1 := by
-  have hmh : (main.map fun x => destHost x.2.1) ≠ some (some hc) := by
-    cases main with
-    | none => simp
-    | some x => simpa using hnm x rfl
   unfold routeOnce
-  simp only [Option.map_none, Option.bind_none, Option.isSome_none, Bool.and_false, Bool.false_or,
-    reduceCtorEq, or_false, copyStage]
+  simp only [Option.map_none, Option.bind_none, reduceCtorEq, or_false, ↓reduceIte, builtCopy]
   split
   · exact ⟨rfl, hs⟩
   · split
     · exact ⟨rfl, hs⟩
-    · split
-      · exact mainStage_sim cfg m hasRetry hc _ hmh _ _ _ _ _ hs (by simp [delivered, hr])
-      · exact mainStage_sim cfg m hasRetry hc _ hmh _ _ _ _ _ hs (by simp [delivered, hr])
+    · exact performBoth_sim cfg m hasRetry hc main hnm s s' hs hr
 
 /-- one pass with the copy rule against one pass without it, under the `Separate` hypotheses:
-    same stage result, and the states still agree up to the copy host -/
+    same stage result, and the states still agree up to the copy host.  Whether the copy request
+    can be built does not matter: if it cannot, the pass IS the pass without the copy. -/
 theorem routeOnce_copy (cfg : ExecCfg) (m : Bytes) (hasRetry : Bool) (hc : Bytes)
     (main : Option (Rule × Bytes × Option Nat)) (copy : Rule × Bytes)
-    (hparse : destHost copy.2 = some hc) (hbuild : cfg.build copy.1.internal = none)
+    (hparse : destHost copy.2 = some hc) (hnp : cfg.build copy.1.internal ≠ some .panicNoSecrets)
     (hnm : ∀ x, main = some x → destHost x.2.1 ≠ some hc)
     (s s' : ExecState) (hs : Sim hc s s') (hr : s.remaining = s'.remaining) :
     (routeOnce cfg m hasRetry main (some copy) s).2 = (routeOnce cfg m hasRetry main none s').2 ∧
     Sim hc (routeOnce cfg m hasRetry main (some copy) s).1 (routeOnce cfg m hasRetry main none s').1 := by
-  have hmh : (main.map fun x => destHost x.2.1) ≠ some (some hc) := by
-    cases main with
-    | none => simp
-    | some x => simpa using hnm x rfl
   unfold routeOnce
-  simp only [Option.map_some, Option.map_none, Option.bind_some, Option.bind_none, hparse, hbuild,
-    Option.isSome_some, Option.isSome_none, Bool.and_true, Bool.and_false, Bool.false_or,
-    reduceCtorEq, or_false, Option.some.injEq]
+  simp only [Option.map_some, Option.map_none, Option.bind_some, Option.bind_none, hparse, hnp,
+    reduceCtorEq, or_false, ↓reduceIte, Option.some.injEq, builtCopy]
   split
   · exact ⟨rfl, hs⟩
   · split
     · exact ⟨rfl, hs⟩
-    · simp only [copyStage]
-      by_cases hbuf' : (decide (m ≠ cfg.excluded) || hasRetry) = true
-      · -- the run without the copy buffers too
-        rw [if_pos hbuf']
-        have hbuf : (main.isSome || decide (m ≠ cfg.excluded) || hasRetry) = true := by
-          rw [Bool.or_assoc, hbuf', Bool.or_true]
-        rw [if_pos hbuf]
-        exact mainStage_sim cfg m hasRetry hc _ hmh _ _ _ _ _
-          (performRequest_left cfg.script cfg.retries cfg.excluded hc m (!hasRetry) _ _ _ hs)
-          (by simp [delivered, hr])
-      · -- excluded method, no retry rule: without the copy the client body is read directly
-        rw [if_neg hbuf']
-        cases main with
-        | none =>
-          -- no proxied request at all: 404 in both runs, the copy reads the client body
-          rw [if_neg (by simpa using hbuf')]
-          simp only [Option.map_none, mainStage]
-          exact ⟨by trivial, performRequest_left cfg.script cfg.retries cfg.excluded hc m (!hasRetry) _ _ _ hs⟩
-        | some x =>
-          rw [if_pos (by simp)]
-          exact mainStage_sim cfg m hasRetry hc _ hmh _ _ _ _ _
-            (performRequest_left cfg.script cfg.retries cfg.excluded hc m (!hasRetry) _ _ _ hs)
-            (by simp [delivered, hr])
+    · by_cases hb : (cfg.build copy.1.internal).isSome = true
+      · -- the copy request cannot be built: it is dropped, both runs do the same
+        rw [if_pos hb]
+        exact performBoth_sim cfg m hasRetry hc main hnm s s' hs hr
+      · rw [if_neg hb]
+        exact performBoth_copy cfg m hasRetry hc main copy hparse hnm s s' hs hr
 
 /-! ### the retry chain -/
 
@@ -210,7 +238,7 @@ theorem routeRequest_copy (cfg : ExecCfg) (q : Query) (m : Bytes) (hc : Bytes) (
     Sim hc (routeRequest cfg q m chain main (some copy) s).1 (routeRequest cfg q m chain main none s').1 := by
   cases chain with
   | nil =>
-    obtain ⟨h2, h1⟩ := routeOnce_copy cfg m false hc main copy sep.parses sep.builds sep.notMain s s' hs hr
+    obtain ⟨h2, h1⟩ := routeOnce_copy cfg m false hc main copy sep.parses sep.noPanic sep.notMain s s' hs hr
     unfold routeRequest
     cases ho : routeOnce cfg m false main (some copy) s with
     | mk t stg =>
@@ -224,7 +252,7 @@ theorem routeRequest_copy (cfg : ExecCfg) (q : Query) (m : Bytes) (hc : Bytes) (
         | answered e idx => simp only; split <;> exact ⟨rfl, h1⟩
         | unreachable => exact ⟨rfl, h1⟩
   | cons rr rest =>
-    obtain ⟨h2, h1⟩ := routeOnce_copy cfg m true hc main copy sep.parses sep.builds sep.notMain s s' hs hr
+    obtain ⟨h2, h1⟩ := routeOnce_copy cfg m true hc main copy sep.parses sep.noPanic sep.notMain s s' hs hr
     have hfb := sep.notFallback rr (List.mem_cons_self ..)
     have hrest : ∀ rr' ∈ rest, ∀ x, fallbackMatch q m rr' = some x → destHost x.2.1 ≠ some hc :=
       fun rr' h' => sep.notFallback rr' (List.mem_cons_of_mem _ h')
@@ -259,7 +287,7 @@ theorem copy_invisible_contacts : CopyInvisibleContacts := by
   intro cfg q m b chain main copy hc sep
   exact (routeRequest_copy cfg q m hc chain main copy sep _ _ (Sim.init hc b b) rfl).2.2
 
-/-! ### the excluded class is real (finding C20-a) -/
+/-! ### regression instance: the former finding C20-a (repaired by a `fix:` commit) -/
 
 /-- a configuration whose `createProxyRequest` refuses internal rules (client sent an
     originating-IP / request-id header without the routing secret) and accepts external ones -/
@@ -273,16 +301,43 @@ def vMain : Rule := { path := b!"/m/*", wci := some 3, dest := b!"http://d0.test
 def vCopy : Rule := { path := b!"/m/*", wci := some 3, dest := b!"http://c0.test/$1", internal := true, type := .copy }
 def vQ : Query := ⟨b!"http", b!"h1.test", b!"/m/a", b!"GET"⟩
 
-/-- external main rule, internal copy rule: only the copy request cannot be built, and the client
-    gets its 407 instead of the main destination's 200 -/
-theorem copy_build_error_visible : CopyBuildErrorVisible := by
-  refine ⟨vCfg, vQ, b!"GET", [], some (vMain, b!"http://d0.test/a", some 0), (vCopy, b!"http://c0.test/a"), ?_, ?_⟩
-  · decide
-  · decide
+/-- the copy request of this configuration cannot be built — and it is inside `Separate` all the
+    same (before the repair it was outside, by the `builds` field) -/
+theorem vSeparate : Separate vCfg vQ b!"GET" [] (some (vMain, b!"http://d0.test/a", some 0))
+    (vCopy, b!"http://c0.test/a") b!"c0.test" where
+  parses := by decide
+  noPanic := by decide
+  notMain := by intro x hx; cases hx; decide
+  notFallback := by intro rr hrr; cases hrr
 
-/-- the witness is outside `Separate` only by its `builds` field -/
-example : vCfg.build vCopy.internal = some .idOrIpNoSecret ∧
-    destHost b!"http://c0.test/a" = some b!"c0.test" ∧ destHost b!"http://d0.test/a" ≠ some b!"c0.test" := by decide
+example : vCfg.build vCopy.internal = some .idOrIpNoSecret := by decide
+
+/-- external main rule, internal copy rule, only the copy request cannot be built: the result
+    with the copy rule now equals the result without it (it used to be the copy's 407) … -/
+example :
+    (routeRequest vCfg vQ b!"GET" [] (some (vMain, b!"http://d0.test/a", some 0)) (some (vCopy, b!"http://c0.test/a")) { remaining := [] }).2
+      = (routeRequest vCfg vQ b!"GET" [] (some (vMain, b!"http://d0.test/a", some 0)) none { remaining := [] }).2 :=
+  copy_invisible vCfg vQ b!"GET" [] [] _ _ _ vSeparate
+
+/-- … namely the main destination's 200 … -/
+example :
+    (match (routeRequest vCfg vQ b!"GET" [] (some (vMain, b!"http://d0.test/a", some 0)) (some (vCopy, b!"http://c0.test/a")) { remaining := [] }).2 with
+     | .response e idx => e.status == 200 && e.host == b!"d0.test" && idx == some 0
+     | _ => false) = true := by decide
+
+/-- … and the copy is skipped: only the main destination is contacted, as without the copy rule -/
+example :
+    (routeRequest vCfg vQ b!"GET" [] (some (vMain, b!"http://d0.test/a", some 0)) (some (vCopy, b!"http://c0.test/a")) { remaining := [] }).1.contacts
+      = [⟨b!"d0.test", b!"GET", false, []⟩] ∧
+    (routeRequest vCfg vQ b!"GET" [] (some (vMain, b!"http://d0.test/a", some 0)) none { remaining := [] }).1.contacts
+      = [⟨b!"d0.test", b!"GET", false, []⟩] := by decide
+
+/-- what `noPanic` still excludes is real in the model (and is NOT finding C20-a): with an empty,
+    non-nil secret list building the internal copy request panics at `secrets[0]` -/
+example :
+    (routeRequest { vCfg with build := fun internal => if internal then some .panicNoSecrets else none }
+        vQ b!"GET" [] (some (vMain, b!"http://d0.test/a", some 0)) (some (vCopy, b!"http://c0.test/a")) { remaining := [] }).2
+      matches .panicked := by decide
 
 /-! ### non-vacuity of `Separate` -/
 
@@ -300,7 +355,7 @@ def wQ : Query := ⟨b!"http", b!"h1.test", b!"/m/a", b!"PUT"⟩
 theorem wSeparate : Separate wCfg wQ b!"PUT" [] (some (wMain, b!"http://d0.test/a", some 0))
     (wCopy, b!"http://c0.test/a") b!"c0.test" where
   parses := by decide
-  builds := rfl
+  noPanic := by decide
   notMain := by intro x hx; cases hx; decide
   notFallback := by intro rr hrr; cases hrr
 
@@ -343,7 +398,7 @@ def xQ : Query := ⟨b!"http", b!"h1.test", b!"/m/a", b!"POST"⟩
 theorem xSeparate : Separate xCfg xQ b!"POST" [xRetry] (some (wMain, b!"http://d0.test/a", some 0))
     (wCopy, b!"http://c0.test/a") b!"c0.test" where
   parses := by decide
-  builds := rfl
+  noPanic := by decide
   notMain := by intro x hx; cases hx; decide
   notFallback := by
     intro rr hrr x hx
